@@ -240,6 +240,9 @@ def specOnCert (der : Bytes) (eff : V1.CertificateContent) (cfgSubject : String)
           eff.manipulations.tbsPublicKeyAlgorithm.all fun o => c.tbs.spkiAlg.oid == o && c.tbs.spkiAlg.params.isNone),
         ("C19: `.tbs.subjectPublicKey.subjectPublicKey` is not exactly the given bits",
           eff.manipulations.tbsPublicKey.all fun b => c.tbs.spkiBits == 0 :: b),
+        ("C06: the byte-valued manipulation `.signatureValue` is not in the certificate byte for byte", eff.manipulations.signatureValue.all fun b => c.signature == 0 :: b),
+        ("C06: the byte-valued manipulation `.tbs.subjectPublicKey.subjectPublicKey` is not in the certificate byte for byte",
+          eff.manipulations.tbsPublicKey.all fun b => c.tbs.spkiBits == 0 :: b),
         ("C19: a field no manipulation names differs from what the configuration without manipulations produces (outer algorithm)",
           !hasManip || eff.manipulations.signatureAlgorithm.isSome || (Gen.sigAlgTable[eff.signatureAlgorithm]?.map (·.1)) == some c.sigAlg.oid),
         ("C19: a field no manipulation names differs from what the configuration without manipulations produces (inner algorithm)",
@@ -463,8 +466,11 @@ def replayRun (tz : Int) (files : List FileJ) (strat : Nat) (fault : Option Faul
           if !nowOk then checks := checks ++ [⟨pl.alias, false, "C04: notBefore of a run-relative validity is not the time of the run", Json.null⟩]
           let keyKept := match e.art.key with | some k => (pemJ.bind (·.key)).map (·.id) == some (k.id : Int) | none => true
           if !keyKept then checks := checks ++ [⟨pl.alias, false, "C14: stored private key was not kept", Json.null⟩]
+          -- (a public-key manipulation replaces the key fields of the certificate: then only "request kept, no key written" applies)
+          let pkManip := eff.manipulations.tbsPublicKey.isSome || eff.manipulations.tbsPublicKeyAlgorithm.isSome
           let csrKept := match e.art.request with
-            | some (_, id) => e.art.key.isSome || ((pemJ.bind (·.csr)).map (·.id) == some (id : Int) && (pemJ.bind (·.key)).isNone && (pemJ.bind (·.cert)).map (·.subjectKey) == some (id : Int))
+            | some (_, id) => e.art.key.isSome || ((pemJ.bind (·.csr)).map (·.id) == some (id : Int) && (pemJ.bind (·.key)).isNone &&
+                (pkManip || (pemJ.bind (·.cert)).map (·.subjectKey) == some (id : Int)))
             | none => true
           if !csrKept then checks := checks ++ [⟨pl.alias, false, "C14: certificate request not honoured (public key, request kept, no key written)", Json.null⟩]
           -- the hash line written with the certificate is the hash of the effective configuration
@@ -528,7 +534,11 @@ def replayRun (tz : Int) (files : List FileJ) (strat : Nat) (fault : Option Faul
           let hasManip := m.version.isSome || m.signatureAlgorithm.isSome || m.signatureValue.isSome || m.tbsSignature.isSome || m.tbsPublicKeyAlgorithm.isSome || m.tbsPublicKey.isSome
           let eff' := match (s.find pl.alias) with | some x => x.content | none => eff
           let cfgSubject := match (files.find? (·.path = e.configPath)).bind (·.json) with | some j => Wire.optStr j "subject" | none => ""
-          specFails := specFails ++ specOnCert der eff' cfgSubject hasManip none issuerDer self (cj.verifiesUnder.getD []) issuerKeyId
+          let certClauses := specOnCert der eff' cfgSubject hasManip none issuerDer self (cj.verifiesUnder.getD []) issuerKeyId
+          specFails := specFails ++ certClauses
+          -- C11, last sentence: an entity regenerated in the same run as its issuer is signed by the issuer's *new* certificate
+          if !self && planned.contains eff.issuer && certClauses.any (fun c => c.startsWith "C01: issuer DN" || c.startsWith "C01: signature does not verify") then
+            specFails := specFails ++ ["C11: an entity regenerated in the same run as its issuer is not signed by the issuer's new certificate (issuers must be generated before the entities they sign)"]
           if conformantCfg eff && cj.x509 == some false then
             specFails := specFails ++ ["C02: an independent X.509 parser (crypto/x509) rejects the certificate"]
           if (pemJ.bind (·.key)).isNone && (pemJ.bind (·.csr)).isNone then
